@@ -11,6 +11,7 @@ import (
 	"testing"
 
 	"github.com/gagliardetto/solana-go"
+	"github.com/rpcpool/yellowstone-faithful/indexes"
 	"github.com/rpcpool/yellowstone-faithful/zzverif/cargen"
 	"github.com/rpcpool/yellowstone-faithful/zzverif/explore"
 	"github.com/rpcpool/yellowstone-faithful/zzverif/vkit"
@@ -21,12 +22,19 @@ import (
 // the newest-first order, for EVERY iteration order of the per-epoch result map (the `range` over
 // that map in multiepoch-getSignaturesForAddress.go is rewritten to an explorer choice).
 
-func c07Shapes() []cargen.Shape {
+// extra (optional) is a further address that is a static key of every transaction that mentions account 1.
+func c07Shapes(extra *solana.PublicKey) []cargen.Shape {
 	mk := func(epoch uint64, accs [][]int) cargen.Shape {
 		s := cargen.Shape{Epoch: epoch}
 		for i, a := range accs {
+			first := cargen.TxShape{Accounts: a}
+			for _, x := range a {
+				if x == 1 && extra != nil {
+					first.Keys = [][32]byte{[32]byte(*extra)}
+				}
+			}
 			s.Blocks = append(s.Blocks, cargen.BlockShape{SlotOffset: 5 + 3*i, Blocktime: int64(1_670_000_000 + int(epoch)*100 + i),
-				Entries: [][]cargen.TxShape{{{Accounts: a}, {Accounts: []int{9}}}}})
+				Entries: [][]cargen.TxShape{{first, {Accounts: []int{9}}}}})
 		}
 		return s
 	}
@@ -44,13 +52,48 @@ func TestVerif_C07_Handler(t *testing.T) {
 	defer R.Finish()
 	base := vkBase("c07")
 	defer os.RemoveAll(base)
-	R.Rule = "handler level: 3 generated epochs with real gsfa indexes; addresses present in all / two / one / no epoch; every loaded subset x (limit, before, until) drawn from the address history; for each request every iteration order of the per-epoch result map is enumerated and the JSON array must list the signatures in newest-first order"
-	shapes := c07Shapes()
-	var eps []*vEpoch
-	for i, sh := range shapes {
-		if !vkit.Mine(0) { // a single worker does the handler level (the space is small)
+	R.Rule = "handler level: 3 generated epochs with real gsfa indexes; addresses present in all / two / one / no epoch, plus an address present in the oldest and the newest epoch that collides (bucket and 24-bit hash) with a stored address in the middle epoch's address index; every loaded subset x (limit, before, until) drawn from the address history; for each request every iteration order of the per-epoch result map is enumerated and the JSON array must list the signatures in newest-first order"
+	if !vkit.Mine(0) { // a single worker does the handler level (the space is small)
+		return
+	}
+	// account "4" = an address constructed so that, in the MIDDLE epoch's address index (where it has no history),
+	// its bucket and 24-bit hash equal those of a stored address; it has history in the oldest and the newest epoch
+	// (next to account 1). The middle epoch is built first, the address is searched in its index.
+	var collider *solana.PublicKey
+	{
+		e, err := vkBuildEpoch(filepath.Join(base, "probe"), c07Shapes(nil)[1], true)
+		if err != nil {
+			R.Internal("cannot build the middle epoch: %v", err)
 			return
 		}
+		seen := map[solana.PublicKey]bool{}
+		var keys [][]byte
+		for _, tx := range e.Truth.Txs {
+			for _, a := range tx.Accounts {
+				if !seen[a] {
+					seen[a] = true
+					keys = append(keys, append([]byte{}, a[:]...))
+				}
+			}
+		}
+		_, db, f, err := c03OpenBucketDomain(filepath.Join(e.GsfaDir, string(indexes.Kind_PubkeyToOffsetAndSize)+".index"), keys[0])
+		if err != nil {
+			R.Internal("cannot open the middle epoch's pubkey index: %v", err)
+			return
+		}
+		cand, _, tries := c03FindCollider(db, keys, c03GenAddr, 0, 1_500_000_000)
+		f.Close()
+		if cand == nil {
+			R.Note("no colliding address found in %d candidates: account 4 is left out", tries)
+		} else {
+			pk := solana.PublicKeyFromBytes(cand)
+			collider = &pk
+			R.Add("collider_search_candidates", int64(tries))
+		}
+	}
+	shapes := c07Shapes(collider)
+	var eps []*vEpoch
+	for i, sh := range shapes {
 		e, err := vkBuildEpoch(filepath.Join(base, fmt.Sprintf("e%d", i)), sh, true)
 		if err != nil {
 			R.Internal("cannot build epoch %d: %v", sh.Epoch, err)
@@ -59,9 +102,19 @@ func TestVerif_C07_Handler(t *testing.T) {
 		e.writeConfig(vkConfigOpts{})
 		eps = append(eps, e)
 	}
+	nAcc := 3
+	if collider != nil {
+		nAcc = 4
+	}
+	accKey := func(acc int) solana.PublicKey {
+		if acc == 4 {
+			return *collider
+		}
+		return cargen.Account(acc)
+	}
 	history := func(loaded []*vEpoch, acc int) []solana.Signature {
 		var out []solana.Signature
-		pk := cargen.Account(acc)
+		pk := accKey(acc)
 		for i := len(loaded) - 1; i >= 0; i-- { // newest epoch first
 			txs := loaded[i].Truth.Txs
 			for k := len(txs) - 1; k >= 0; k-- { // newest transaction first
@@ -105,7 +158,7 @@ func TestVerif_C07_Handler(t *testing.T) {
 			handlers = append(handlers, newMultiEpochHandler(so, nil))
 		}
 		for hi, h := range handlers {
-			for acc := 0; acc <= 3; acc++ {
+			for acc := 0; acc <= nAcc; acc++ {
 				H := history(loaded, acc)
 				total := len(H)
 				limits := []int{0, 1001}
@@ -129,7 +182,7 @@ func TestVerif_C07_Handler(t *testing.T) {
 								opts["until"] = H[u].String()
 							}
 							ob, _ := json.Marshal(opts)
-							body := fmt.Sprintf(`{"jsonrpc":"2.0","id":1,"method":"getSignaturesForAddress","params":[%q,%s]}`, cargen.Account(acc).String(), ob)
+							body := fmt.Sprintf(`{"jsonrpc":"2.0","id":1,"method":"getSignaturesForAddress","params":[%q,%s]}`, accKey(acc).String(), ob)
 							start := 0
 							if b >= 0 {
 								start = b + 1
